@@ -105,12 +105,12 @@ def legacy_pairs():
                                 continue                      # covering sample
                             modev = ("EXA", "EXP", "TRN", "perturbative-exact")[n % 4]
                             th = dict(PTO=pto, QED=qed, alphas=0.118 + 0.001 * pto, alphaqed=0.0078, Qref=91.2, nfref=5, mc=1.51, mb=4.92, mt=172.5, kcThr=1.0 + 0.1 * (n % 3), kbThr=1.0, ktThr=2.0,
-                                      HQ=hq, XIF=1.0 + 0.25 * (n % 2), Q0=1.65 if nf0 else (1.3 if n % 2 else 6.0), nf0=nf0, ModEv=modev)
+                                      HQ=hq, XIF=1.0 + 0.25 * (n % 2), Q0=1.65 if nf0 else (1.6 if n % 2 else 6.0), nf0=nf0, ModEv=modev)
                             if hq == "MSBAR":
                                 th.update(Qmc=1.51, Qmb=4.92, Qmt=172.5)
                             if n % 5 == 0:
                                 th["alphaem"] = th.pop("alphaqed")
-                            scales = [2.0, 10.0, 100.0, 400.0]
+                            scales = [2.0, 10.0, 100.0, 300.0, 400.0]          # 300 lies between sqrt(ktThr) mt and ktThr mt: the ratios are ratios of scales, not of squared scales
                             op = dict(interpolation_xgrid=[1e-3, 1e-2, 0.1, 0.5, 1.0], interpolation_polynomial_degree=2 + n % 2, interpolation_is_log=bool(n % 2), ev_op_iterations=1 + n % 3,
                                       ev_op_max_order=mo, n_integration_cores=1, polarized=bool(n % 7 == 0), time_like=bool(n % 11 == 0), debug_skip_non_singlet=False, debug_skip_singlet=False)
                             op[grid] = scales if grid == "mugrid" else [s * s for s in scales]
